@@ -307,7 +307,7 @@ class BaseRenderer(eqx.Module):
         jax.numpy.array
             Rendered, observed model
         """
-        to_func = {k.replace(suffix, ""): v for k, v in params.items()}
+        to_func = {k.removesuffix(suffix): v for k, v in params.items()}
         model_im = self.combine_scene(*self.profile_func_dict[profile_type](to_func))
         return model_im
 
